@@ -372,6 +372,8 @@ def shared_entry_mutations(fi, sites=None, init=None, tables=True, call_sources=
                     return '%s(...)' % cname
             if isinstance(fn, ast.Attribute) and fn.attr in VIEW_METHODS:
                 return value_alias(fn.value, st, ctx)
+            if isinstance(fn, ast.Attribute) and fn.attr == 'astype' and any(k.arg == 'copy' and isinstance(k.value, ast.Constant) and k.value.value is False for k in v.keywords):
+                return value_alias(fn.value, st, ctx)          # astype(copy=False) returns the array itself when the dtype already matches
             name = fn.attr if isinstance(fn, ast.Attribute) else (fn.id if isinstance(fn, ast.Name) else '')
             if name in VIEW_FUNCS and v.args:
                 return value_alias(v.args[0], st, ctx)
@@ -455,4 +457,176 @@ def shared_entry_mutations(fi, sites=None, init=None, tables=True, call_sources=
         if (id(s), nm) not in seen:
             seen.add((id(s), nm))
             out.append((s, nm, r))
+    return out
+
+
+# --------------------------------------------------------------------------
+def local_memo_completeness(fi):
+    """Dict memos that live inside one function (`cache = {}` ... `if key not in cache: cache[key] = f(...)` in a loop):
+    every loop-variant input of the fill must be determined by the names the key mentions.
+
+    A name is *determined* if the key mentions it, or if it is defined inside the loop and every loop-variant name its
+    definitions read is determined; loop-invariant names (defined outside the loop) are constants of the memo's lifetime.
+    Returns [(store stmt, memo name, undetermined names)] (empty list of names == complete)."""
+    out = []
+    memos = {}
+    for n in walk_no_nested(fi.node):
+        if isinstance(n, ast.Assign) and _is_empty_dict(n.value):
+            for t in n.targets:
+                if isinstance(t, ast.Name):
+                    memos[t.id] = n
+    if not memos:
+        return out
+    loops = [n for n in walk_no_nested(fi.node) if isinstance(n, (ast.For, ast.While))]
+    for lp in loops:
+        inloop_defs = {}
+        variant = set()
+        if isinstance(lp, ast.For):
+            for x in ast.walk(lp.target):
+                if isinstance(x, ast.Name):
+                    variant.add(x.id)
+        for st in lp.body:
+            for n in ast.walk(st):
+                if isinstance(n, (ast.For,)):
+                    for x in ast.walk(n.target):
+                        if isinstance(x, ast.Name):
+                            variant.add(x.id)
+                if isinstance(n, ast.Assign):
+                    for t in n.targets:
+                        for x in ast.walk(t):
+                            if isinstance(x, ast.Name) and isinstance(x.ctx, ast.Store):
+                                inloop_defs.setdefault(x.id, []).append(n)
+                                variant.add(x.id)
+                if isinstance(n, ast.AugAssign) and isinstance(n.target, ast.Name):
+                    inloop_defs.setdefault(n.target.id, []).append(n)
+                    variant.add(n.target.id)
+        for n in ast.walk(lp):
+            if not (isinstance(n, ast.If) and isinstance(n.test, ast.Compare) and len(n.test.ops) == 1 and isinstance(n.test.ops[0], ast.NotIn)
+                    and isinstance(n.test.comparators[0], ast.Name) and n.test.comparators[0].id in memos):
+                continue
+            memo = n.test.comparators[0].id
+            if memos[memo].lineno > lp.lineno:
+                continue                  # the memo is re-created inside this loop: it does not outlive a pass
+            stores = [st for st in n.body if isinstance(st, ast.Assign) and isinstance(st.targets[0], ast.Subscript) and ast.unparse(st.targets[0].value) == memo]
+            if not stores:
+                continue
+            K = set(_names_load(n.test.left))
+            changed = True
+            while changed:                # the key may itself be a named temporary
+                changed = False
+                for k in list(K):
+                    for d in inloop_defs.get(k, []):
+                        if d.lineno < n.lineno and k in _names_load(n.test.left) and isinstance(d.targets[0], ast.Name) and d.targets[0].id == k:
+                            new = _names_load(d.value) - K
+                            if new and not isinstance(d.value, ast.Call):
+                                pass
+                    break
+            keynames = set()
+            for k in _names_load(n.test.left):
+                ds = [d for d in inloop_defs.get(k, []) if d.lineno < n.lineno]
+                if ds and all(isinstance(d, ast.Assign) and isinstance(d.value, (ast.Tuple, ast.List)) for d in ds):
+                    for d in ds:
+                        keynames |= _names_load(d.value)      # key = (a, b, ...) built in the loop: its components are what it mentions
+                else:
+                    keynames.add(k)
+            memo_seen = {}
+
+            def determined(v, depth=0):
+                if v in keynames:
+                    return True
+                if v not in variant:
+                    return True                 # loop invariant
+                if v in memo_seen:
+                    return memo_seen[v]
+                memo_seen[v] = False
+                ds = [d for d in inloop_defs.get(v, []) if d.lineno < n.lineno]
+                if not ds or depth > 12:
+                    return False                # loop target / carried value not mentioned by the key
+                ok = all(all(determined(y, depth + 1) for y in _names_load(d.value) if y != v) for d in ds)
+                memo_seen[v] = ok
+                return ok
+            reads = set()
+            for st in stores:
+                reads |= _names_load(st.value)
+            import builtins
+            bad = sorted(v for v in reads if v != memo and not hasattr(builtins, v) and not determined(v))
+            out.append((stores[0], memo, bad))
+    return out
+
+
+def module_global_mutations(db, module_name):
+    """In-place writes, inside functions, through a name that may alias a module-level array/container (constants built at
+    import time are shared by every call: editing one makes results depend on how often the function ran)."""
+    mod = db.module(module_name)
+    out = []
+    # dict/OrderedDict memos are filled on purpose (their soundness is the memo-completeness rule's business); arrays, lists and
+    # expressions of them are constants
+    names = {n for n, e in mod.assigns.items() if isinstance(e, (ast.Call, ast.List, ast.Tuple, ast.BinOp)) and not _is_empty_dict(e)
+             and not (isinstance(e, ast.Call) and ast.unparse(e.func).split('.')[-1] in ('dict', 'OrderedDict', 'defaultdict', 'set', 'WeakValueDictionary'))}
+    if not names:
+        return out
+    fns = list(mod.functions.values()) + [m for c in mod.classes.values() for m in c.methods.values()]
+    for fi in fns:
+        local = {n.id for n in ast.walk(fi.node) if isinstance(n, ast.Name) and isinstance(n.ctx, ast.Store)} | set(fi.params)
+        glob = set()
+        for n in ast.walk(fi.node):
+            if isinstance(n, ast.Global):
+                glob |= set(n.names)
+        init = {n: n for n in names if n not in local or n in glob}
+        for st, nm, r in shared_entry_mutations(fi, init=init, tables=False):
+            out.append((fi, st, nm, r))
+    return out
+
+
+def sibling_alias_mutations(fi):
+    """In-place writes through a local name that may be the SAME OBJECT as another local name which is still read
+    afterwards (`Y = X if square else f(); Y -= s; ... X ...`).  Returns [(stmt, written name, other name)]."""
+    out = []
+    # alias classes by plain name copies (a = b, a = b if c else ..., a, b = c, d)
+    pairs = set()
+
+    def names_of(v):
+        if isinstance(v, ast.Name):
+            return {v.id}
+        if isinstance(v, ast.IfExp):
+            return names_of(v.body) | names_of(v.orelse)
+        return set()
+    stmts = sorted([n for n in walk_no_nested(fi.node) if isinstance(n, (ast.Assign, ast.AugAssign))], key=lambda s: (s.lineno, s.col_offset))
+    loads = sorted([n for n in walk_no_nested(fi.node) if isinstance(n, ast.Name) and isinstance(n.ctx, ast.Load)], key=lambda n: (n.lineno, n.col_offset))
+    alias = {}          # name -> set of names it may be identical to
+    for st in stmts:
+        if isinstance(st, ast.Assign):
+            for t in st.targets:
+                if isinstance(t, ast.Name):
+                    src = names_of(st.value) - {t.id}
+                    alias[t.id] = set()
+                    for s_ in src:
+                        alias[t.id] |= {s_} | alias.get(s_, set())
+                    for o in list(alias):
+                        if o != t.id and t.id in alias[o] and t.id not in src:
+                            alias[o].discard(t.id)
+                    for s_ in alias[t.id]:
+                        alias.setdefault(s_, set()).add(t.id)
+                elif isinstance(t, (ast.Tuple, ast.List)) and isinstance(st.value, (ast.Tuple, ast.List)) and len(t.elts) == len(st.value.elts):
+                    for e, v in zip(t.elts, st.value.elts):
+                        if isinstance(e, ast.Name):
+                            src = names_of(v) - {e.id}
+                            alias[e.id] = set()
+                            for s_ in src:
+                                alias[e.id] |= {s_} | alias.get(s_, set())
+                            for s_ in alias[e.id]:
+                                alias.setdefault(s_, set()).add(e.id)
+                elif isinstance(t, ast.Subscript) and isinstance(t.value, ast.Name):
+                    w = t.value.id
+                    for o in alias.get(w, ()):
+                        if any(l.id == o and (l.lineno, l.col_offset) > (st.lineno, st.col_offset) for l in loads):
+                            out.append((st, w, o))
+        else:
+            t = st.target
+            base = t.value if isinstance(t, ast.Subscript) else t
+            if isinstance(base, ast.Name):
+                w = base.id
+                for o in alias.get(w, ()):
+                    if any(l.id == o and (l.lineno, l.col_offset) > (st.lineno, st.col_offset) for l in loads):
+                        out.append((st, w, o))
     return out
